@@ -326,6 +326,34 @@ def run_frames(case):
     return out
 
 
+def run_stack(case):
+    """the chain's head registered on an ExitStack: the stack's child context for it goes through the same
+    elaborate / unwrap loop, and a PRUNEd one stays in children (hidden), it does not vanish"""
+    from contextlib import ExitStack
+    objs = build(case)
+    es = ExitStack()
+    es.push(objs[0])          # registers objs[0].__exit__ (generator-based heads were entered by build())
+    es.callback(finish)
+    ctx = Context(obj=es, is_async=False)
+    err = None
+    try:
+        fill_context(ctx)
+    except RuntimeError as ex:
+        err = "RuntimeError" if type(ex) is RuntimeError and "100 times" in str(ex) else repr(ex)
+    except BaseException as ex:
+        err = repr(ex)
+    kids = [c for c in ctx.children if isinstance(c, Context)]
+    if err is None and len(kids) != 2:
+        out = {"obj": "children=%d" % len(kids), "log": [list(x) for x in LOG], "error": err}
+    elif err is not None:
+        out = {"obj": None, "log": [list(x) for x in LOG], "error": err}
+    else:
+        out = describe(kids[0], err)
+        out["desc_raw"] = kids[0].description
+    finish()
+    return out
+
+
 def handle(req):
     op = req["op"]
     if op == "ctxhooks.run":
@@ -333,5 +361,6 @@ def handle(req):
         res = {"top": run_top(case), "inside": run_inside(case)}
         if not case["exiting"]:
             res["frames"] = run_frames(case)
+            res["stack"] = run_stack(case)
         return res
     raise AssertionError(op)
